@@ -143,6 +143,69 @@ theorem ladder_open (a c : Int) (M L : Nat) (F : Int → Int → Nat)
     simp only [e]
     omega
 
+/-- consecutive lines with even pairwise sums have the same parity -/
+theorem chain (M : Nat) (S : Nat → Nat) (h : ∀ i, i + 1 < M → (S i + S (i + 1)) % 2 = 0) :
+    ∀ i, i < M → S i % 2 = S 0 % 2
+  | 0, _ => rfl
+  | i + 1, hi => by
+    have := chain M S h i (by omega)
+    have := h i hi
+    omega
+
+/-- **Domino tiling of a line.**  The sites `2k` (`0 ≤ k ≤ L`) of one parity class `k % 2 = e`
+    each cover the two positions `2k - 1`, `2k + 1`; together they cover every position
+    `1, 3, …, 2L - 1` exactly once (`g` vanishes at the two positions outside). -/
+theorem rsum_pairs (e : Nat) (he : e < 2) (L : Nat) (g : Int → Nat) (h0 : g (-1) = 0)
+    (hL : g (2 * L + 1) = 0) :
+    rsum (L + 1) (fun k => if k % 2 = e then g (2 * k - 1) + g (2 * k + 1) else 0) =
+      rsum L (fun j => g (2 * j + 1)) := by
+  have hsplit : rsum (L + 1) (fun k => if k % 2 = e then g (2 * k - 1) + g (2 * k + 1) else 0) =
+      rsum (L + 1) (fun k => if k % 2 = e then g (2 * k - 1) else 0) +
+        rsum (L + 1) (fun k => if k % 2 = e then g (2 * k + 1) else 0) := by
+    rw [← rsum_add]
+    apply rsum_congr
+    intro k _
+    by_cases hk : k % 2 = e
+    · simp only [if_pos hk]
+    · simp only [if_neg hk]
+  have s1 : rsum (L + 1) (fun k => if k % 2 = e then g (2 * (k : Int) - 1) else 0) =
+      rsum L (fun j => if (j + 1) % 2 = e then g (2 * (j : Int) + 1) else 0) := by
+    rw [rsum_succ']
+    have hz : (if 0 % 2 = e then g (2 * ((0 : Nat) : Int) - 1) else 0) = 0 := by
+      by_cases h : 0 % 2 = e
+      · rw [if_pos h]; simpa using h0
+      · rw [if_neg h]
+    rw [hz, Nat.zero_add]
+    apply rsum_congr
+    intro j _
+    have ej : 2 * ((j + 1 : Nat) : Int) - 1 = 2 * (j : Int) + 1 := by omega
+    simp only [ej]
+  have s2 : rsum (L + 1) (fun k => if k % 2 = e then g (2 * (k : Int) + 1) else 0) =
+      rsum L (fun j => if j % 2 = e then g (2 * (j : Int) + 1) else 0) := by
+    show rsum L _ + (if L % 2 = e then g (2 * (L : Int) + 1) else 0) = _
+    rw [hL]
+    simp
+  rw [hsplit, s1, s2, ← rsum_add]
+  apply rsum_congr
+  intro j _
+  by_cases h1 : (j + 1) % 2 = e <;> by_cases h2 : j % 2 = e
+  · omega
+  · simp only [if_pos h1, if_neg h2]; omega
+  · simp only [if_neg h1, if_pos h2]; omega
+  · omega
+
+/-- Python `range(1, 2L + 1, 2)` -/
+theorem pyRange2_odd (L : Nat) :
+    pyRange2 1 (2 * L + 1) = (List.range L).map (fun j => ((2 * j + 1 : Nat) : Int)) := by
+  unfold pyRange2
+  have h : (2 * L + 1 - 1 + 1) / 2 = L := by omega
+  rw [h, range'_two, List.map_map]
+  apply List.map_congr_left
+  intro j _
+  simp only [Function.comp, Int.ofNat_eq_natCast]
+  congr 1
+  omega
+
 /-- Python `range(p, 2L, 2)` for `p ≤ 1` -/
 theorem pyRange2_eq (p L : Nat) (hp : p ≤ 1) :
     pyRange2 p (2 * L) = (List.range L).map (fun j => ((2 * j + p : Nat) : Int)) := by
